@@ -305,3 +305,6 @@ def run(ctx):
     from ..initflags import group_rule, separation_rule
     group_rule(ctx, "R8.7", "logs", "some logs restart from empty while others continue, so the logs no longer have one entry per step")
     separation_rule(ctx, "R8.8")
+    # "preserved by ... backward simulation": no helper task (with logs of its own) may stay behind
+    from .C17 import r17_3
+    r17_3(ctx)
